@@ -176,8 +176,8 @@ Proof.
   intros HG Hf Hm H. pose proof (graph_ok_gok _ HG) as OK.
   assert (Hv : visit (w_G W) (lookup_fn W m (qname m n)) (S (length (w_G W))) false [] f = VFound a e).
   { rewrite <- resolve_mark_fst_lemma. rewrite <- H. destruct m; try contradiction; cbn [ask_r];
-      unfold resolve_mark_r, resolve_mark; destruct (lookup_fn W _ _ f); try reflexivity; apply top_loop_r_fst. }
-  destruct (visit_sound _ _ OK _ _ _ f a e (gok_self _ OK f Hf) Hv) as (g & Hg & Hfn & _).
+      unfold resolve_mark_r, resolve_mark; destruct (lookup_fn W _ _ f); try reflexivity; symmetry; apply top_loop_r_fst. }
+  destruct (visit_sound _ _ _ _ _ f a e (gok_self _ OK f Hf) Hv) as (g & Hg & Hfn & _).
   pose proof (find_file_some _ _ _ Hg) as [_ Hp]. unfold lookup_fn in Hfn. rewrite Hp in Hfn.
   cbn [gres_of]. destruct (tab_find (w_tab W) a) as [rf|]; [|discriminate]. now apply (enc_some _ e).
 Qed.
